@@ -858,7 +858,12 @@ class Interp:
                 if init is None:
                     continue
                 selfname = init.node.args.args[0].arg if init.node.args.args else "self"
-                for n in ast.walk(init.node):
+                from .rules.common import self_helper_bodies
+
+                class _A:  # what self_helper_bodies needs of an analysis
+                    p = self.p
+
+                for n in (x for b in self_helper_bodies(_A, init) for x in ast.walk(b)):
                     tgts = n.targets if isinstance(n, ast.Assign) else [n.target] if isinstance(n, (ast.AnnAssign, ast.AugAssign)) else []
                     for t in tgts:
                         for tt in (t.elts if isinstance(t, ast.Tuple) else [t]):
